@@ -23,6 +23,7 @@ def run(ctx):
     selection_predicate(ctx, 'C11')
     previous_kept(ctx, 'C11')
     ss.transaction_lifecycle(ctx, 'C11')
+    bounded_reads(ctx, 'C11')
 
 
 def priority_rules(ctx, pfx):
@@ -222,3 +223,38 @@ def previous_kept(ctx, pfx):
     is_new = decisions(b, lambda fc: fc[0] == 'bool' and access_path(fc[1]) == 'is_new')
     ctx.ob(pfx + '.BIND.previous_none_only_if_new', 'RF-GUARD', bool(is_new), b.path, '%s:%s' % (b.file, b.line),
            'previous = None without a lookup only under is_new' if is_new else 'no decision on is_new guards the lookup of the previous version')
+
+
+def bounded_reads(ctx, pfx):
+    """values of an unfinished epoch are invisible: every value-state query on a
+    request / publish path is bounded by the snapshot epoch (LeqEpoch(snapshot) or a
+    retain(epoch <= snapshot) on the full list)"""
+    from rules import dir_shared as ds
+    prog = ctx.prog
+    n = 0
+    for fn in ('publish', 'get_lookup_info', 'key_history'):
+        b = prog.fn_and_inner(ds.D + fn)
+        for cal in ('StorageManager::get_user_state_versions', 'StorageManager::get_user_state'):
+            for ev, c in find_events(b, cal):
+                n += 1
+                fl = arg(c, 2)
+                ok = fl[0] == 'agg' and fl[2] == 'LeqEpoch'
+                ctx.ob('%s.SNAP.bounded[%s:%s]' % (pfx, fn, cal.split('::')[-1]), 'RF-SNAP', ok, b.path, '%s:%s' % (b.file, ev['line']),
+                       'value states are read with LeqEpoch(..)' if ok else 'value states are read with %s: rows of an unfinished epoch become visible' % show(fl)[:60],
+                       key='RF-SNAP|bounded|%s|%s' % (fn, cal))
+        for ev, c in find_events(b, 'StorageManager::get_user_data'):
+            n += 1
+            used = [x for e2 in b.events() for x in e2['calls'] if isinstance(x, tuple) and x[0] == 'call' and call_is(x, 'create_single_update_proof')]
+            ok = bool(used) and any(call_is(m, 'Vec::retain') for m in _muts_all(arg(used[0], 3)))
+            ctx.ob('%s.SNAP.bounded[%s:get_user_data]' % (pfx, fn), 'RF-SNAP', ok, b.path, '%s:%s' % (b.file, ev['line']),
+                   'the full state list is filtered by retain(epoch <= snapshot epoch) before use' if ok else 'the full state list is used unfiltered',
+                   key='RF-SNAP|bounded|%s|get_user_data' % fn)
+    ctx.ob('%s.SNAP.bounded.count' % pfx, 'FLOOR', n >= 3, ds.D, None, '%d value-state reads on publish / request paths' % n)
+
+
+def _muts_all(e):
+    out = []
+    for x in walk(e):
+        if x[0] == 'mutby':
+            out += list(x[1])
+    return out
